@@ -673,7 +673,26 @@ def r16_for_each_fill(text):
     return text, n
 
 
+def r6f_find(text):
+    """`E.iter().find(F)` -> `vx_find(&E, F)` (specified generic helper: first element satisfying F)"""
+    n = 0
+    while True:
+        m = mask(text)
+        j = m.find('.iter().find(')
+        if j < 0:
+            break
+        a = _receiver_start(m, j)
+        recv = text[a:j]
+        p = j + len('.iter().find(') - 1
+        q = match_close(m, p)
+        inner = text[p + 1:q]
+        text = text[:a] + 'vx_find(&' + recv + ', ' + inner + ')' + text[q + 1:]
+        n += 1
+    return text, n
+
+
 RULES = {
+    'R6F': r6f_find,
     'R16': r16_for_each_fill,
     'R5P': r5p_mut_param,
     'R4N': r4n_name_for_iter,
